@@ -5,7 +5,7 @@ summaries.  Used (a) as summaries for functions the deep interpreter does not in
 """
 import ast
 
-from .model import mangle, AnalysisError, norm_text
+from .model import canon_text, mangle, AnalysisError, norm_text
 
 POINT_CLASSES = {"PointJacobi", "Point"}
 
@@ -699,7 +699,8 @@ class Lite(object):
                         nm = "Exception"
                     out.append((nm, n, "raise"))
                 elif isinstance(n, ast.Assert):
-                    if f.qname not in self.internal_asserts:
+                    if f.qname not in self.internal_asserts and (f.qname, norm_text(n.test)) not in self.internal_asserts \
+                            and (f.qname, canon_text(f.node, n.test)) not in self.internal_asserts:
                         out.append(("AssertionError", n, "assert"))
                 elif isinstance(n, ast.Call):
                     fn = n.func
